@@ -54,7 +54,7 @@ LAWS = [
 DATE_LAWS = [("todate|fromdate", "(todate | fromdate) == ."), ("gmtime|mktime", "(gmtime | mktime) == .")]
 
 VALUES = [None, True, False, 0, 1, -1, 2 ** 53, -(2 ** 63), 10 ** 20, 0.5, -2.25, 1e17, 1.25e-7,
-          "", "a", "a,b", ",", ",,a,", "abab", "ab", "é", "aéb", "日本語", "\u0000", "a\"b\\c", "\n\t", "\u007f", " +%2B&=?/", "\U0001F600", "%", "a b", "=", "YQ==",
+          "\u0080", "x\u0080y", "\u007f\u0080\u07ff\u0800\uffff\U00010000\U0010ffff", "\u00ff", "\ud7ff\ue000", "", "a", "a,b", ",", ",,a,", "abab", "ab", "é", "aéb", "日本語", "\u0000", "a\"b\\c", "\n\t", "\u007f", " +%2B&=?/", "\U0001F600", "%", "a b", "=", "YQ==",
           [], [[]], [1, [2, [3]]], [None, False], {}, {"": 1}, {"a": {}}, {"a": [], "b": {"c": None}}, {"é": "x", "a\"b": 1, "\n": [1]}, {"a b": {"": {"k": [1, {"z": 2}]}}},
           [{"a": 1}, {"b": [2, 3]}], {"a": [{"b": 1}, {"c": {"d": [1, 2]}}]}, [[], {}, [[]], [{}]], {"k": [0, {"z": 5}]}]
 
@@ -68,7 +68,7 @@ def rand_deep(r, d=3):
     if k == 2:
         return r.choice([0, 1, -5, 2 ** 40, 10 ** 25, 0.5, -1.75, 123456.5])
     if k in (3, 4):
-        return "".join(r.choice(["a", "b", ",", " ", "é", "日", "\"", "\\", "\n", "\u0001", "%", "+", "=", "\U0001F600", "\u007f", "/"]) for _ in range(r.randrange(6)))
+        return "".join(r.choice(["a", "b", ",", " ", "é", "日", "\"", "\\", "\n", "\u0001", "%", "+", "=", "\U0001F600", "\u007f", "/", "\u0080", "\u07ff", "\u0800", "\uffff", "\U00010000", "\U0010ffff"]) for _ in range(r.randrange(6)))
     if k in (5, 6):
         return [rand_deep(r, d - 1) for _ in range(r.randrange(4))]
     return {"".join(r.choice(["a", "b", "", "é", " ", "\"", "k", "\n"]) for _ in range(r.randrange(3))): rand_deep(r, d - 1) for _ in range(r.randrange(4))}
